@@ -31,10 +31,11 @@ const (
 	kIterBreak
 	kHandlerLookup
 	kIgnoreCloneStash
+	kHostIgnoreLookup
 	nKinds
 )
 
-var kindNames = [...]string{"direct(2 params)", "ignored-slash", "redirect", "404", "405", "OPTIONS", "Lookup+Close", "Lookup+Clone", "handler-CloneWith", "handler-Clone-stash", "hostname-direct", "infix-catch-all", "iterators-left-early", "handler-Lookup-inside", "ignored-slash-Clone-stash"}
+var kindNames = [...]string{"direct(2 params)", "ignored-slash", "redirect", "404", "405", "OPTIONS", "Lookup+Close", "Lookup+Clone", "handler-CloneWith", "handler-Clone-stash", "hostname-direct", "infix-catch-all", "iterators-left-early", "handler-Lookup-inside", "ignored-slash-Clone-stash", "static-hostname-ignored-slash+Lookup-inside"}
 
 // world is one router plus the bookkeeping of one execution.
 type world struct {
@@ -268,6 +269,28 @@ func newWorld(withHost bool) *world {
 		w.respond(c)
 	}))
 	if withHost {
+		// a static-hostname route with a path parameter, reached by an ignored trailing slash; its handler
+		// looks up another slash-adjusted request while its own context is live
+		must(f.Handle("GET", "static.host/hi/{a}/", func(c fox.Context) {
+			w.observe(c, "static.host/hi/{a}/", fox.RouteHandler, []string{"a"}, true)
+			outer := w.cur
+			inner := &reqInfo{tok: outer.tok + "i", kind: outer.kind}
+			w.cur = inner
+			rt, cc, tsr := w.f.Lookup(fx.WrapRW(fx.NewRW()), w.req("GET", "", "/i/"+inner.tok+"a"))
+			if rt == nil || cc == nil || !tsr {
+				w.bad("inner Lookup found nothing")
+			} else {
+				w.observe(cc, "/i/{a}/", fox.RouteHandler, []string{"a"}, true)
+				w.cur = outer
+				w.observe(c, "static.host/hi/{a}/", fox.RouteHandler, []string{"a"}, true)
+				w.cur = inner
+				w.observe(cc, "/i/{a}/", fox.RouteHandler, []string{"a"}, true)
+				cc.Close()
+			}
+			w.cur = outer
+			w.observe(c, "static.host/hi/{a}/", fox.RouteHandler, []string{"a"}, true)
+			w.respond(c)
+		}, fox.WithIgnoreTrailingSlash(true)))
 		// a hostname route switches the GET tree to hostname mode (different reset path in lookup)
 		must(f.Handle("GET", "{h}.host/x/{a}", func(c fox.Context) {
 			w.observe(c, "{h}.host/x/{a}", fox.RouteHandler, []string{"h", "a"}, true)
@@ -323,6 +346,8 @@ func (w *world) issue(kind int) {
 		w.f.ServeHTTP(rw, w.req("GET", "", "/hl/"+tok+"a"))
 	case kIgnoreCloneStash:
 		w.f.ServeHTTP(rw, w.req("GET", "", "/ic/"+tok+"a"))
+	case kHostIgnoreLookup:
+		w.f.ServeHTTP(rw, w.req("GET", "static.host", "/hi/"+tok+"a"))
 	case kIterBreak:
 		// every iterator consumed completely once and left at its first element once
 		it := w.f.Iter()
@@ -471,7 +496,7 @@ func sequences(maxLen int, kinds []int, withReplace bool) []Seq {
 				}
 				hasHostKind := false
 				for _, k := range cur {
-					if k == kHostDirect {
+					if k == kHostDirect || k == kHostIgnoreLookup {
 						hasHostKind = true
 					}
 				}
@@ -602,7 +627,7 @@ func init() {
 	mc.Register(&mc.Check{
 		ID:    "C12",
 		Level: "model_checking",
-		Rule: "every sequence up to a length of requests from a 15-kind alphabet (direct, ignored slash, redirect, 404, 405, OPTIONS, manual Lookup(+Clone), CloneWith, Clone, hostname, infix catch-all, every iterator consumed fully and left at its first element, a handler doing a Lookup for another request, a slash-adjusted match whose handler keeps a Clone), with an optional tree replacement before each request, x EVERY answer of the context pool at every Pool.Get (any of the pooled contexts or a fresh one: data choice points of the controlled scheduler); every request carries a unique token in every observable field and every Context getter is checked inside every handler; stashed clones are re-read after every later request; " +
+		Rule: "every sequence up to a length of requests from a 16-kind alphabet (direct, ignored slash, redirect, 404, 405, OPTIONS, manual Lookup(+Clone), CloneWith, Clone, hostname, infix catch-all, every iterator consumed fully and left at its first element, a handler doing a Lookup for another request, a slash-adjusted match whose handler keeps a Clone, a static-hostname slash-adjusted match whose handler looks up another slash-adjusted request), with an optional tree replacement before each request, x EVERY answer of the context pool at every Pool.Get (any of the pooled contexts or a fresh one: data choice points of the controlled scheduler); every request carries a unique token in every observable field and every Context getter is checked inside every handler; stashed clones are re-read after every later request; " +
 			"plus two-thread schedules; distinct_nontrivial = distinct (sequence, outcome) classes",
 		Assumptions: []string{
 			"sync.Pool may return any previously Put object or a fresh one: the shim makes that choice explicit and the explorer enumerates it",
@@ -615,11 +640,11 @@ func init() {
 				if c.Quick() {
 					seqs = sequences(2, kinds, true)
 					// length 3 over the kinds that leave most state behind
-					seqs = dedupSeqs(append(seqs, sequences(3, []int{kIgnoreSlash, kNotFound, kLookupClone, kCloneStash, kDirect, kHandlerLookup, kIgnoreCloneStash}, false)...))
+					seqs = dedupSeqs(append(seqs, sequences(3, []int{kIgnoreSlash, kNotFound, kLookupClone, kCloneStash, kDirect, kHandlerLookup, kIgnoreCloneStash, kHostIgnoreLookup}, false)...))
 				} else {
 					seqs = sequences(maxLen, kinds, true)
 				}
-				r.Bounds["sequences"] = fmt.Sprintf("%d sequences (15 kinds; quick: all of length<=2 with tree replacement + length 3 over 7 kinds; thorough: all of length<=3 with tree replacement), unbounded exploration of pool answers", len(seqs))
+				r.Bounds["sequences"] = fmt.Sprintf("%d sequences (16 kinds; quick: all of length<=2 with tree replacement + length 3 over 8 kinds; thorough: all of length<=3 with tree replacement), unbounded exploration of pool answers", len(seqs))
 				for i, s := range seqs {
 					if !c.Mine(i) {
 						continue
